@@ -101,7 +101,7 @@ def random_program(rng, kind):
         prog.append(ops)
     # receivers either only poll (may find nothing) or only block - and then
     # never ask for more messages than are sent, so every receive() can return
-    blocking = rng.random() < 0.4
+    blocking = rng.random() < 0.4 and kind != 'pqueue'      # ParserQueue.get() blocks the OS thread
     budget = total
     for r in range(nr):
         ops = []
@@ -215,8 +215,8 @@ def run(ctx):
     validate_histories(ctx, col.hist, 'PortTrace: histories of replayed schedules')
     # seeded random / PCT schedules, larger programs, all kinds incl. MultiPort
     rng = random.Random(ctx.seed * 31 + 10)
-    n = 6000 if thorough else 400
-    jobs = [(rng.choice(['echo', 'device', 'ioport', 'multi']), rng.randrange(1 << 30),
+    n = 6000 if thorough else 500
+    jobs = [(rng.choice(['echo', 'device', 'ioport', 'multi', 'pqueue']), rng.randrange(1 << 30),
              rng.choice(['random', 'pct'])) for _ in range(n)]
     col2 = Collect(ctx, random_worker, batch_size=1)
     col2.map(list(core.chunks(jobs, 50)))
